@@ -248,6 +248,17 @@ func evalOnPath(pa *Path, c ssa.Value, step int) (bool, bool) {
 	if !px && !py {
 		return false, false
 	}
+	// a merge at a loop head has the resolved value on the first iteration only; paths are enumerated with bounded
+	// unrolling, where the first iteration stands for all of them: such a comparison is left undecided
+	for _, v := range []ssa.Value{strip(b.X, false), strip(b.Y, false)} {
+		if ph, ok := v.(*ssa.Phi); ok {
+			for _, pred := range ph.Block().Preds {
+				if ph.Block().Dominates(pred) {
+					return false, false
+				}
+			}
+		}
+	}
 	x, y := pa.Resolve(b.X, step), pa.Resolve(b.Y, step)
 	switch b.Op {
 	case token.LSS, token.LEQ, token.GTR, token.GEQ:
